@@ -141,4 +141,16 @@ theorem swapRemove_body (xs : List Nat) (i k : Nat) :
   · have a3 : xs.length ≤ i := by omega
     simp [run, SeqBody.swapRemove, exec, step, LX.eval, BX.eval, St.get, St.set, St.scopeDrops, h]
 
+/-- by-reference `split` at `K ≤ N`: two shared views, `[0, K)` and `[K, N)`, both inside the receiver's extent -/
+theorem splitRef_body (n k i : Nat) (hk : k ≤ n) :
+    runViews false SeqBody.splitRef ⟨n, k, i⟩ = some [⟨0, k, false⟩, ⟨k, n - k, false⟩] := by
+  have h2 : k + (n - k) ≤ n := by omega
+  simp [runViews, SeqBody.splitRef, vexec, vstep, lookupP, lookupV, lookupVs, LX.eval, noAlias, hk, h2]
+
+/-- `&mut` split: two *mutable* views made from the one pointer obtained through the unique borrow; they do not overlap -/
+theorem splitMut_body (n k i : Nat) (hk : k ≤ n) :
+    runViews true SeqBody.splitMut ⟨n, k, i⟩ = some [⟨0, k, true⟩, ⟨k, n - k, true⟩] := by
+  have h2 : k + (n - k) ≤ n := by omega
+  simp [runViews, SeqBody.splitMut, vexec, vstep, lookupP, lookupV, lookupVs, LX.eval, noAlias, View.disjoint, hk, h2]
+
 end GA.Bridge.SeqBody
